@@ -43,10 +43,10 @@ type params struct {
 // several vectors contain subsets of exactly 10 %, just below and just above 10 % of the total.
 var stakeSets = [][]int64{
 	{5_000_000, 5_000_000, 9_999_999, 10_000_001, 10_000_000, 20_000_000, 20_000_000, 20_000_000},
-	{20_000_000, 18_000_000, 17_000_000, 16_000_000, 15_000_000, 14_000_000},
-	{3_000_000, 7_000_000, 10_000_000, 15_000_000, 20_000_000, 22_000_000, 23_000_000},
-	{9_000_000, 1_000_000, 24_000_000, 24_000_000, 21_000_000, 21_000_000},
-	{40_000_000, 10_000_000, 10_000_000, 10_000_000, 10_000_000, 10_000_000, 10_000_000}, // one protected (>25 %)
+	{9_600_000, 10_400_000, 18_000_000, 17_000_000, 16_000_000, 15_000_000, 14_000_000},
+	{2_500_000, 7_000_000, 500_000, 10_000_000, 15_000_000, 20_000_000, 22_000_000, 23_000_000},
+	{9_500_000, 500_000, 24_000_000, 24_000_000, 21_000_000, 21_000_000},
+	{40_000_000, 9_900_000, 10_100_000, 10_000_000, 10_000_000, 10_000_000, 10_000_000}, // one protected (>25 %)
 }
 
 func cases(tier string, seed int64) []fw.Case {
